@@ -159,3 +159,121 @@ def pair_cover(pol="pos", src_only=None):
                 nodes.append(N("L", "PLoad" if ch != "RLoss" else "RLoad", "X"))
             c["S>%s>%s" % (p, ch)] = S(*nodes)
     return c
+
+
+# ---------------------------------------------------------------------------------------------------
+ENUM_INNER = ["RLoss", "Converter", "LinReg", "PSwitch", "RectD"]
+ENUM_LEAF = ["PLoad", "ILoad", "RLoad"]
+
+
+def enumerate_trees(max_nodes=4, pol="pos"):
+    """Thorough tier: every single-source tree with <= max_nodes nodes over 5 inner kinds and 3 load kinds (children as
+    multisets - sibling order does not change the structure).  4 nodes: 904 shapes."""
+    import itertools
+
+    kinds = ENUM_INNER + ENUM_LEAF
+    out = {}
+
+    def subtrees(budget):
+        """all (kind, children-tuple) trees with at most `budget` nodes, canonical form."""
+        res = []
+        for k in kinds:
+            res.append((k, ()))
+            if k in ENUM_INNER and budget > 1:
+                for kids in forests(budget - 1):
+                    if kids:
+                        res.append((k, kids))
+        return res
+
+    def forests(budget):
+        """all multisets of subtrees with total size <= budget (incl. the empty forest)."""
+        res = [()]
+        if budget <= 0:
+            return res
+        for first_size in range(1, budget + 1):
+            pass
+        # generate non-decreasing sequences of canonical subtrees
+        allsub = {}
+        for b in range(1, budget + 1):
+            allsub[b] = [t for t in subtrees(b) if size(t) == b]
+
+        def rec(remaining, minkey, acc):
+            if acc:
+                res.append(tuple(acc))
+            for b in range(1, remaining + 1):
+                for t in allsub[b]:
+                    key = repr(t)
+                    if key < minkey:
+                        continue
+                    rec(remaining - b, key, acc + [t])
+
+        res.clear()
+        res.append(())
+        rec(budget, "", [])
+        return res
+
+    def size(t):
+        return 1 + sum(size(c) for c in t[1])
+
+    def emit(t, parent, nodes, counter):
+        counter[0] += 1
+        name = "%s%d" % (t[0][0] if t[0] not in ("RectD",) else "D", counter[0])
+        nodes.append(N(name, t[0], parent))
+        for c in t[1]:
+            emit(c, name, nodes, counter)
+
+    seen = set()
+    for forest in forests(max_nodes - 1):
+        if not forest:
+            continue
+        key = repr(forest)
+        if key in seen:
+            continue
+        seen.add(key)
+        nodes = [N("S", "Source", pol=pol)]
+        cnt = [0]
+        for t in forest:
+            emit(t, "S", nodes, cnt)
+        sid = "/".join(_fmt(t) for t in forest)
+        out[sid] = S(*nodes)
+    return out
+
+
+def _fmt(t):
+    return t[0] + ("(" + ",".join(_fmt(c) for c in t[1]) + ")" if t[1] else "")
+
+
+def enumerate_mux(pol="nonneg"):
+    """Thorough tier: muxes with 2..4 inputs; each input is a source (that may be dead), a converter / switch below its own
+    source, or a second branch of an earlier source; scalar and per-input resistance; one load kind below."""
+    out = {}
+    inputs = ["src", "conv", "switch", "shared"]
+    import itertools
+
+    for k in (2, 3, 4):
+        for combo in itertools.product(inputs, repeat=k):
+            if k == 4 and len(set(combo)) > 2:
+                continue
+            if combo.count("shared") and combo[0] == "shared":
+                continue
+            nodes, parents = [], []
+            for j, kind in enumerate(combo):
+                if kind == "shared":
+                    base = parents[0] if nodes and nodes[0]["kind"] == "Source" else None
+                    src = nodes[0]["name"]
+                    nm = "B%d" % j
+                    nodes.append(N(nm, "LinReg", src, only=("vdrop",)))
+                    parents.append(nm)
+                    continue
+                s = "S%d" % j
+                nodes.append(N(s, "Source", pol=pol if j < k - 1 else "pos", only=()))
+                if kind == "src":
+                    parents.append(s)
+                else:
+                    nm = ("C%d" if kind == "conv" else "W%d") % j
+                    nodes.append(N(nm, "Converter" if kind == "conv" else "PSwitch", s, only=("rs",) if kind == "switch" else ()))
+                    parents.append(nm)
+            for rs_list in (True, False):
+                nn = list(nodes) + [N("M", "PMux", parents, rs_list=rs_list, only=("rs",)), N("L", "ILoad" if rs_list else "PLoad", "M", only=())]
+                out["mux%d:%s:%s" % (k, "+".join(combo), "list" if rs_list else "scalar")] = S(*nn)
+    return out
